@@ -1,0 +1,60 @@
+//go:build verif
+
+// Contracts for the deductive verifier in /verif (govc). Comment-only.
+
+package kv
+
+//@ # ---- flush commit (C01): the output table stays protected from garbage collection (pending output) until
+//@ # the edit log that makes it part of a version has been committed -------------------------------------------
+//@ # ghost: commitsSeenAtRemove = number of commitEditLog calls that had happened when the pending mark was removed
+//@ ghost field Family.commitsSeenAtRemove int
+//@ func Family.removePendingOutput
+//@   norefine
+//@   modifies self.commitsSeenAtRemove
+//@   ensures self.commitsSeenAtRemove == calls(self.commitEditLog)
+//@ end
+//@ func Family.commitEditLog
+//@   norefine
+//@   modifies nothing
+//@ end
+//@ func Family.getStore
+//@   modifies nothing
+//@   ensures result != nil
+//@ end
+//@ func Store.Option
+//@   modifies nothing
+//@ end
+//@ func github.com/lindb/lindb/kv/table.Builder.Size
+//@   modifies nothing
+//@ end
+//@ func github.com/lindb/lindb/kv/table.Builder.FileNumber
+//@   modifies nothing
+//@ end
+//@ func github.com/lindb/lindb/kv/table.Builder.MinKey
+//@   modifies nothing
+//@ end
+//@ func github.com/lindb/lindb/kv/table.Builder.MaxKey
+//@   modifies nothing
+//@ end
+//@ ghost field github.com/lindb/lindb/kv/table.Builder.finished bool
+//@ func github.com/lindb/lindb/kv/table.Builder.Close
+//@   norefine
+//@   modifies self.finished
+//@ end
+//@ func github.com/lindb/lindb/kv/table.Builder.Abandon
+//@   norefine
+//@   modifies self.finished
+//@ end
+//@ stable storeFlusher.family
+//@ stable storeFlusher.editLog
+//@ func storeFlusher.Commit
+//@   prop C01
+//@   requires sf.family != nil && sf.editLog != nil && typeis(sf.editLog, "*version.editLog") && (sf.builder != nil ==> sf.builder != sf.family)
+//@   modifies *
+//@   ensures[the_output_stays_pending_until_the_edit_log_is_committed] old(sf.builder) != nil ==> (calls(sf.family.removePendingOutput) == old(calls(sf.family.removePendingOutput)) + 1 && sf.family.commitsSeenAtRemove == calls(sf.family.commitEditLog))
+//@   ensures[the_edit_log_is_committed_at_most_once] calls(sf.family.commitEditLog) == old(calls(sf.family.commitEditLog)) || calls(sf.family.commitEditLog) == old(calls(sf.family.commitEditLog)) + 1
+//@   ensures[success_means_committed] err == nil ==> calls(sf.family.commitEditLog) == old(calls(sf.family.commitEditLog)) + 1
+//@   loop 1 invariant calls(sf.family.commitEditLog) == old(calls(sf.family.commitEditLog)) && calls(sf.family.removePendingOutput) == old(calls(sf.family.removePendingOutput))
+//@   loop 2 invariant calls(sf.family.commitEditLog) == old(calls(sf.family.commitEditLog)) && calls(sf.family.removePendingOutput) == old(calls(sf.family.removePendingOutput))
+//@   loop 3 invariant calls(sf.family.commitEditLog) == old(calls(sf.family.commitEditLog)) && calls(sf.family.removePendingOutput) == old(calls(sf.family.removePendingOutput))
+//@ end
